@@ -47,12 +47,19 @@ struct shared {
 
 struct seen_slot *vrt_seen_tab;
 unsigned char *vrt_covmap;
+int vrt_seen_unavailable;
 static struct shared *S;
 static struct vrt_scenario *scen;
 static int nworkers = 4;
 static double deadline_s = 0;
 static struct timespec t_start;
 static int keep_going;
+/* fork scalability: every execution is a fork of a worker.  Mappings that all workers share (the work stack S, the canonical-state
+ * table) would make every fork and exit of every execution take the same kernel locks; the workers therefore keep a private copy of
+ * the configuration for their children, own private result slots, and exclude S (always) and the state table (when the scenario does
+ * not use it) from what a child inherits. */
+static struct config child_cfg;
+static int seen_inherited = 1;
 
 static double elapsed(void)
 {
@@ -99,7 +106,9 @@ static int run_one(const struct work *w, struct result *r, int verbose)
 		exit(2);
 	}
 	if (pid == 0) {
-		struct config *c = &S->cfg;
+		struct config *c = &child_cfg;
+
+		vrt_seen_unavailable = !seen_inherited;
 
 		if (!verbose) {
 			int fd = open("/dev/null", O_WRONLY);
@@ -148,7 +157,18 @@ static void note_outcome(unsigned long h)
 
 static void worker(int wid, struct result *r, struct result *r2)
 {
+	int nrun = 0;
+
 	(void)wid;
+	child_cfg = S->cfg;
+	/* own result slots: a shared-memory object that only this worker and its current child map */
+	r = mmap(NULL, sizeof(*r) * 2, PROT_READ | PROT_WRITE, MAP_SHARED | MAP_ANONYMOUS | MAP_NORESERVE, -1, 0);
+	if (r == MAP_FAILED) {
+		perror("mmap worker results");
+		_exit(2);
+	}
+	r2 = r + 1;
+	madvise(S, sizeof(*S), MADV_DONTFORK);
 	for (;;) {
 		struct work w;
 		int got = 0, st, i, a;
@@ -174,7 +194,13 @@ static void worker(int wid, struct result *r, struct result *r2)
 			return;
 		}
 		r->noprune = 0;
+		r->used_seen = 0;
 		st = run_one(&w, r, 0);
+		if (++nrun == 1 && !r->used_seen && vrt_seen_tab && seen_inherited && st != ST_INTERNAL) {
+			/* the scenario does not use the canonical-state table: later children need not inherit it */
+			madvise(vrt_seen_tab, SEEN_SLOTS * sizeof(struct seen_slot), MADV_DONTFORK);
+			seen_inherited = 0;
+		}
 		if (st == ST_INTERNAL) {
 			lock();
 			S->internal = 1;
@@ -580,8 +606,7 @@ int main(int argc, char **argv)
 	}
 	S->cfg.livelock_window = S->cfg.horizon / 4 > 1500 ? S->cfg.horizon / 4 : 1500;
 	S->cfg.verbose = 0;
-	slots = mmap(NULL, sizeof(*slots) * (size_t)nworkers * 2, PROT_READ | PROT_WRITE,
-		     MAP_SHARED | MAP_ANONYMOUS | MAP_NORESERVE, -1, 0);
+	slots = NULL;		/* every worker maps its own pair of result slots */
 	pids = calloc((size_t)nworkers, sizeof(*pids));
 
 	int real_budget[C_N], discovery = 1;
@@ -624,7 +649,7 @@ int main(int argc, char **argv)
 			pids[i] = fork();
 			if (pids[i] == 0) {
 				prctl(PR_SET_PDEATHSIG, SIGKILL);
-				worker(i, &slots[2 * i], &slots[2 * i + 1]);
+				worker(i, slots, slots);
 				_exit(0);
 			}
 		}
